@@ -135,6 +135,21 @@ Theorem C14_observed_call_forgets_history (us : Z -> R) h s m f region ncalls :
 Proof. exact (observed_call_forgets_history us h s m f region ncalls). Qed.
 Print Assumptions C14_observed_call_forgets_history.
 
+(** The integrators draw from Sample_Uniform of the Statistics facility, which the rest of a program uses as well, with limits of its own.
+    Sample_Uniform(PRNG, a, b) with a < b lies in [a, b) for every draw of the generator, and with the limits 0, 1 of the integrators it is that draw ... *)
+Theorem C14_sample_uniform_in_range (us : Z -> R) pos a b :
+  (0 <= us pos < 1 -> a < b -> a <= sample_uniform ROps us pos a b < b) /\ sample_uniform ROps us pos 0 1 = us pos.
+Proof. exact (conj (sample_uniform_in_range us pos a b) (sample_uniform_default us pos)). Qed.
+Print Assumptions C14_sample_uniform_in_range.
+
+(** ... and draws made before the observed call, with whatever limits, in between integrations ([hevent]: an integration or a series of draws), leave
+    nothing behind: the observed call returns what it returns in a fresh process. *)
+Theorem C14_observed_call_forgets_events (us : Z -> R) h s m f region ncalls :
+  events_ok h -> run_events ROps (vstate0 ROps) h = Ok s -> (rdim region <= 10)%nat ->
+  rmap fst (integrate_mc ROps us s m f region ncalls) = rmap fst (integrate_mc ROps us (vstate0 ROps) m f region ncalls).
+Proof. exact (observed_call_forgets_events us h s m f region ncalls). Qed.
+Print Assumptions C14_observed_call_forgets_events.
+
 (** "the two- and three-dimensional front ends pass the region in the right order": the region vectors built by Integrate_2D/3D
     (C13_Model.mc_region_2d/3d, see also Properties_C13.C13_mc_region_layout_2d/3d) have lower corner (x1,y1(,z1)) and upper corner (x2,y2(,z2)). *)
 Theorem C14_front_end_regions (x1 x2 y1 y2 z1 z2 : R) :
